@@ -307,6 +307,36 @@ pub fn rec_history(a: &Args, out: &mut Out) {
             }
         }
     }
+    // the same message type twice in a row with different sizes (long, short, long): what a builder may skip "because the
+    // layout is the same" is only safe for fixed-size types; all supported types, a few size pairs each
+    for &num in &nums {
+        let mut seen: Vec<(usize, Message)> = vec![];
+        for _ in 0..10 {
+            if let Some(t) = template(&mut r, num) {
+                if let Some((bits, _)) = bit_length_of(&t) {
+                    if !seen.iter().any(|s| s.0 == bits) {
+                        seen.push((bits, t));
+                    }
+                }
+            }
+            if seen.len() >= 3 {
+                break;
+            }
+        }
+        if seen.len() >= 2 {
+            seen.sort_by_key(|s| std::cmp::Reverse(s.0));
+            out.emit(json!({"ev": "NewBuilder"}));
+            let mut b = MessageBuilder::new();
+            let (long, short) = (&seen[0].1, &seen[seen.len() - 1].1);
+            record_build(&mut b, long, out, json!({"same_type": num}));
+            record_build(&mut b, short, out, json!({"same_type": num}));
+            record_build(&mut b, long, out, json!({"same_type": num}));
+            if seen.len() >= 3 {
+                record_build(&mut b, &seen[1].1, out, json!({"same_type": num}));
+                record_build(&mut b, short, out, json!({"same_type": num}));
+            }
+        }
+    }
     // every ordered pair of frames at / next to the maximum length on one builder (what the last buffer bytes keep from the
     // previous build: its checksum, its last body bytes), and each of them after a short frame
     let nm = near_max_messages(&mut r);
